@@ -517,7 +517,15 @@ func genFrameLen() (string, error) {
 			o.fail("dubbothrift decodeFrame: body is not a slice expression")
 		} else {
 			o.fn("thrift_bodyLo", "dubbothrift/decoder.go decodeFrame: body = dataBytes[lo:hi], lo", nil, "Nat", s.Low, env)
-			o.fn("thrift_bodyHi", "dubbothrift/decoder.go decodeFrame: body = dataBytes[lo:hi], hi", []string{"messageLen"}, "Nat", s.High, env)
+			hi := s.High
+			if hi == nil && exprKey(s.X) == "frame.rawData" {
+				// body := frame.rawData[lo:] where frame.rawData is the private copy of dataBytes[:frame.FrameLength]
+				// (make([]byte, frame.FrameLength) + copy): the upper bound is frame.FrameLength
+				if mk, ok := ff.assign["frame.rawData"].(*ast.CallExpr); ok && exprKey(mk.Fun) == "make" && len(mk.Args) == 2 && exprKey(mk.Args[1]) == "frame.FrameLength" {
+					hi = ff.assign["frame.FrameLength"]
+				}
+			}
+			o.fn("thrift_bodyHi", "dubbothrift/decoder.go decodeFrame: body = <frame bytes>[lo:hi], hi", []string{"messageLen"}, "Nat", hi, env)
 		}
 		rm, okm := ff.reads["messageLen"]
 		o.field("thrift_messageLen", "dubbothrift/decoder.go decodeFrame messageLen", rm, okm)
